@@ -290,7 +290,13 @@ def run_c08(ctx):
                 continue
             ctx.violation("E4", f"public transformation raised {type(e).__name__}: {e}", canon)
             continue
-        after = G.content(after_M)
+        try:
+            after = G.content(after_M)
+        except (IndexError, KeyError) as e:
+            ctx.case(canon, True)
+            ctx.violation("E4", f"the result of the transformations is not a consistent data set ({type(e).__name__}: a corner index or "
+                                "a field row points outside the points / cells)", canon, applied=applied)
+            continue
         ctx.case(canon, True, sample={"case": canon, "applied": applied})
         for op in applied:
             ctx.count(f"op:{op}")
@@ -871,12 +877,18 @@ def run_c03(ctx):
             role = rng.choice(["mod_is_source", "mod_is_reference"])
             reorder = rng.random() < 0.6
             Nr = G.relabel(rng, N)[0] if reorder else N
+            padded = False
+            if M["dim"] < 3 and rng.random() < 0.15 and "t" not in M["pf"]:
+                Nr = pad_mesh(Nr)          # the modified data set is stored with zero-padded 3-component coordinates / vectors
+                padded = True
             opts = {}
             if rng.random() < 0.2:
                 opts["disable_orphan_point_removal"] = True
             if rng.random() < 0.1:
                 opts["disable_mesh_reordering"] = True
             canon = {"mesh": json_mesh(M), "modification": desc, "modified": json_mesh(Nr), "role": role, "opts": opts}
+            if padded:
+                ctx.count("c03:modified side stored with padded coordinates (space dimension differs)")
             differs = G.content(N) != base
             ctx.case(canon, True, sample={"case": {"modification": desc, "role": role, "opts": opts, "reordered": reorder}})
             ctx.count(f"c03:{desc[0]}")
@@ -889,7 +901,7 @@ def run_c03(ctx):
                     warnings.simplefilter("ignore")
                     res = compare_impl(G.to_fieldcompare(A), G.to_fieldcompare(B), **opts)
                     direct = bool(G.to_fieldcompare(A).domain.equals(G.to_fieldcompare(B).domain))
-                    if it % 5 == 0:
+                    if it % 5 == 0 and not padded:
                         _, stages = ladder(with_markers(A), with_markers(B), disable_reorder=opts.get("disable_mesh_reordering", False),
                                            disable_orphans=opts.get("disable_orphan_point_removal", False))
                         stage_batch.append((canon, stage_exprs(stages)))
@@ -899,7 +911,7 @@ def run_c03(ctx):
                     continue
                 ctx.violation("E4", f"comparison raised {type(e).__name__}: {e} instead of failing", canon)
                 continue
-            if (len(ladder_batch) < (50 if q else 1200) and len(A["pts"]) <= 14 and not G.has_coincident_points(A)
+            if (not padded and len(ladder_batch) < (50 if q else 1200) and len(A["pts"]) <= 14 and not G.has_coincident_points(A)
                     and not G.has_coincident_points(B) and desc[0] not in ("pfield", "cfield")):
                 try:
                     with quiet():
@@ -909,10 +921,11 @@ def run_c03(ctx):
                     pass
             if res["bool"]:
                 ctx.violation("E4", f"comparison PASSES although the data sets differ ({desc[0]})", canon, impl=res)
-            elif desc[0] in ("move", "rewire", "remove_cell", "duplicate_cell", "drop_block") and direct and not reorder:
+            elif desc[0] in ("move", "rewire", "remove_cell", "duplicate_cell", "drop_block") and direct and not reorder and not padded:
                 ctx.violation("E4", f"Mesh.equals answers 'equal' although the meshes differ ({desc[0]})", canon)
             ctx.traces_validated += 1
     reused_reference_stream(ctx, 60 if q else 1500)
+    changed_in_place_stream(ctx, 60 if q else 1500)
     compat_twins_stream(ctx, 60 if q else 1500)
     run_stage_batch(ctx, stage_batch)
     run_ladder_batch(ctx, ladder_batch)
@@ -968,6 +981,42 @@ def reused_reference_stream(ctx, n):
                 ctx.violation("E4", f"comparison against a reference object that already served an earlier comparison PASSES although "
                                     f"the data sets differ ({desc[0]})", canon, impl=res)
                 break
+        ctx.traces_validated += 1
+
+
+def changed_in_place_stream(ctx, n):
+    """the same two objects compared twice; between the comparisons the reference's point array (which the mesh holds without
+    copying) is changed in place: the second comparison sees different data and must fail, in both roles"""
+    rng = ctx.rng
+    for it in range(n):
+        M = G.add_fields(rng, G.gen_mesh(rng, max_cells=4), kinds=("scalar", "int"))
+        if G.has_coincident_points(M):
+            continue
+        canon = {"mesh": json_mesh(M), "history": "compare, move one point of one side in place, compare again"}
+        try:
+            with quiet():
+                warnings.simplefilter("ignore")
+                a, b = G.to_fieldcompare(G.copy_mesh(M)), G.to_fieldcompare(G.copy_mesh(M))
+                first = compare_impl(a, b)
+                eq1 = bool(a.domain.equals(b.domain))
+                used = sorted({c for _, rows in M["blocks"] for r in rows for c in r})
+                i, d = rng.choice(used), rng.randrange(M["dim"])
+                target = rng.choice(["reference", "source"])
+                P = (b if target == "reference" else a).domain.points
+                P[i, d] += 1000.0 * max(1.0, float(np.max(np.abs(P))))
+                second = compare_impl(a, b)
+                eq2, eq3 = bool(a.domain.equals(b.domain)), bool(b.domain.equals(a.domain))
+        except Exception as e:  # noqa: BLE001
+            ctx.violation("E4", f"comparison raised {type(e).__name__}: {e}", canon)
+            continue
+        canon["moved"] = [target, i, d]
+        ctx.case(canon, True, sample={"moved": canon["moved"], "first": first["bool"], "second": second["bool"]})
+        ctx.count("c03:changed in place between two comparisons")
+        if not (first["bool"] and eq1):
+            ctx.violation("E4", "identical data sets do not compare equal", canon, impl=first)
+        elif second["bool"] or eq2 or eq3:
+            ctx.violation("E4", "after one point was moved in place the same objects still compare equal "
+                                f"(comparator {second['bool']}, equals {eq2}/{eq3})", canon, impl=second)
         ctx.traces_validated += 1
 
 
